@@ -6,7 +6,10 @@ use std::sync::Arc;
 use dashmap::DashMap;
 use dashmap::mapref::multiple::RefMulti;
 use log::info;
+#[cfg(not(cached_verif))]
 use parking_lot::RwLock;
+#[cfg(cached_verif)]
+use crate::cache::verif::RwLock;
 
 use crate::cache::key_description::KeyDescription;
 use crate::cache::policy::config::CacheWeightConfig;
@@ -128,6 +131,7 @@ impl<'a, Key, Freq> FrequencyCounterBasedMinHeapSamples<'a, Key, Freq>
         while self.sample.len() < self.sample_size {
             match iterator.next() {
                 Some(pair) => {
+                    #[cfg(cached_verif)] let _verif_held = crate::cache::verif::lock_held(self.source as *const _ as i64, 0);
                     if !self.current_sample_key_ids.contains(pair.key()) {
                         let frequency = (self.frequency_counter)(pair.key_hash);
                         self.current_sample_key_ids.insert(*pair.key());
@@ -157,6 +161,7 @@ impl<'a, Key, Freq> FrequencyCounterBasedMinHeapSamples<'a, Key, Freq>
         let mut current_sample_key_ids = HashSet::new();
 
         for pair in source.iter().by_ref() {
+            #[cfg(cached_verif)] let _verif_held = crate::cache::verif::lock_held(source as *const _ as i64, 0);
             current_sample_key_ids.insert(*pair.key());
             sample.push(SampledKey::new(frequency_counter(pair.value().key_hash), pair));
             counter += 1;
@@ -209,6 +214,7 @@ impl<Key> CacheWeight<Key>
 
     pub(crate) fn add(&self, key_description: &KeyDescription<Key>) {
         #[cfg(cached_verif)] crate::cache::verif::point("K_AddKw", key_description.id as i64);
+        #[cfg(cached_verif)] crate::cache::verif::lock_touch(&self.key_weights as *const _ as i64, 1);
         self.key_weights.insert(key_description.id, WeightedKey::new(key_description.clone_key(), key_description.hash, key_description.weight));
         #[cfg(cached_verif)] crate::cache::verif::point("K_AddUsed", key_description.id as i64);
         let mut guard = self.weight_used.write();
@@ -220,6 +226,7 @@ impl<Key> CacheWeight<Key>
     pub(crate) fn update(&self, key_id: &KeyId, weight: Weight) -> bool {
         #[cfg(cached_verif)] crate::cache::verif::point("K_Update", *key_id as i64);
         if let Some(mut existing) = self.key_weights.get_mut(key_id) {
+            #[cfg(cached_verif)] let _verif_held = crate::cache::verif::lock_held(&self.key_weights as *const _ as i64, 1);
             {
                 let mut guard = self.weight_used.write();
                 *guard += weight - existing.weight;
@@ -239,6 +246,7 @@ impl<Key> CacheWeight<Key>
     pub(crate) fn delete<DeleteHook>(&self, key_id: &KeyId, delete_hook: &DeleteHook)
         where DeleteHook: Fn(Key) {
         #[cfg(cached_verif)] crate::cache::verif::point("K_DelKw", *key_id as i64);
+        #[cfg(cached_verif)] crate::cache::verif::lock_touch(&self.key_weights as *const _ as i64, 1);
         if let Some(weight_by_key_hash) = self.key_weights.remove(key_id) {
             #[cfg(cached_verif)] crate::cache::verif::point("K_DelUsed", *key_id as i64);
             let mut guard = self.weight_used.write();
@@ -251,10 +259,12 @@ impl<Key> CacheWeight<Key>
     }
 
     pub(crate) fn contains(&self, key_id: &KeyId) -> bool {
+        #[cfg(cached_verif)] crate::cache::verif::lock_touch(&self.key_weights as *const _ as i64, 0);
         self.key_weights.contains_key(key_id)
     }
 
     pub(crate) fn weight_of(&self, key_id: &KeyId) -> Option<Weight> {
+        #[cfg(cached_verif)] crate::cache::verif::lock_touch(&self.key_weights as *const _ as i64, 0);
         self.key_weights.get(key_id).map(|pair| pair.weight)
     }
 
@@ -265,6 +275,7 @@ impl<Key> CacheWeight<Key>
     }
 
     pub(crate) fn clear(&self) {
+        #[cfg(cached_verif)] crate::cache::verif::lock_touch(&self.key_weights as *const _ as i64, 1);
         self.key_weights.clear();
         let mut guard = self.weight_used.write();
         *guard = 0;
@@ -293,6 +304,10 @@ impl<'a, Key, Freq> FrequencyCounterBasedMinHeapSamples<'a, Key, Freq>
 #[cfg(cached_verif)]
 impl<Key> CacheWeight<Key>
     where Key: Hash + Eq + Send + Sync + Clone + 'static, {
+    pub(crate) fn verif_lock_ids(&self) -> Vec<(i64, String)> {
+        vec![(&self.weight_used as *const _ as i64, "used".to_string()), (&self.key_weights as *const _ as i64, "kw".to_string())]
+    }
+
     pub(crate) fn verif_weight_used(&self) -> Option<Weight> { self.weight_used.try_read().map(|guard| *guard) }
 
     pub(crate) fn verif_entries(&self, key_fn: &dyn Fn(&Key) -> i64) -> Vec<crate::cache::verif::WeightEntry> {
